@@ -50,7 +50,7 @@ func (h *verifC19LogLimit) WithGroup(string) slog.Handler      { return h }
 
 func VerifC19NewBalancer(status resources.StatusResource, config resources.ClusterConfigResource, algo selectors.LoadRatioAlgorithm) *VerifC19Balancer {
 	ctx, cancel := context.WithCancel(context.Background())
-	lim := &verifC19LogLimit{max: 200}
+	lim := &verifC19LogLimit{max: 60}
 	nb := &nodeBasedBalancer{
 		WaitGroup:          &sync.WaitGroup{},
 		Logger:             slog.New(lim),
@@ -85,7 +85,7 @@ func (v *VerifC19Balancer) Reset(status resources.StatusResource, config resourc
 type VerifC19Round struct {
 	Actions     []*SwapNodeAction // in emission order
 	Panicked    string            // non-empty if rebalanceEnsemble panicked
-	Livelock    bool              // the round kept failing the same swap (more than 200 error records)
+	Livelock    bool              // the round kept failing the same swap (more than 60 error records)
 	ErrorLogs   int
 	Quarantined []string
 }
